@@ -234,6 +234,7 @@ func retainBytes(b []byte, what string) error {
 //
 //	1: written INTO *otp.DefaultHOTPParam, that pointer passed    2: otp.DefaultHOTPParam replaced by the pointer
 //	3: written INTO *otp.DefaultTOTPParam, that pointer passed    4: otp.DefaultTOTPParam replaced by the pointer
+//	5, 6: OTHER values installed as the exported defaults (written into the structs / pointers replaced); the explicit set is passed as it is
 //
 // The returned function restores both exported defaults.
 func viaDefault(via int, param *otp.Param) (*otp.Param, func()) {
@@ -254,6 +255,16 @@ func viaDefault(via int, param *otp.Param) (*otp.Param, func()) {
 		return otp.DefaultTOTPParam, restore
 	case 4:
 		otp.DefaultTOTPParam = param
+	case 5:
+		// the application has installed OTHER values as its defaults (written into the exported structs); this call passes an
+		// explicit parameter set of its own: the explicit set decides, field by field — a zero period still means 30 s, SHA-1
+		// (the zero value of the enum) still means SHA-1
+		*otp.DefaultHOTPParam = otp.Param{Digits: 8, Algorithm: otp.SHA256, Skew: 1, Period: 60}
+		*otp.DefaultTOTPParam = otp.Param{Digits: 9, Algorithm: otp.SHA512, Skew: 1, Period: 60}
+	case 6:
+		// the same with the exported pointers replaced
+		otp.DefaultHOTPParam = &otp.Param{Digits: 7, Algorithm: otp.SHA512, Skew: 3, Period: 7}
+		otp.DefaultTOTPParam = &otp.Param{Digits: 8, Algorithm: otp.SHA256, Skew: 2, Period: 45}
 	}
 	return param, restore
 }
